@@ -214,36 +214,62 @@ def r2_offset_discipline(ctx, sym):
               and norm(n.value) == 'line_offsets' for n in body_walk(init))
     ctx.check(okp, 'R2', 'traceback:stores-offsets', ux, init, "line offsets are not kept by the traceback",
               "frames cannot be shifted")
-    # sandbox
+    # sandbox: _capture_exception executed abstractly with marker objects
+    sandbox_capture_rule(ctx, sym, 'R2')
+
+
+def sandbox_capture_rule(ctx, sym, rule):
+    """Sandbox._capture_exception, executed abstractly for every kind of filename (student main file, instructor file,
+    a call()/evaluate() snippet name): the submission's line offsets (a marker object) must reach ExpandedTraceback,
+    and the runtime feedback's location must be that traceback's line_number."""
+    from .. import symexec
+    from ..fdeval import Obj
     sb = ctx.repo.module(SANDBOX)
     cap = sb.func('Sandbox._capture_exception')
     ctx.analysed_function(sb, cap)
-    defs = {}
-    for n in ast.walk(cap):
-        if isinstance(n, ast.Assign):
-            defs.setdefault(norm(n.targets[0]), []).append(n.value)
-    tb = [c for c in calls(cap) if call_name(c) == 'ExpandedTraceback']
-    ok = len(tb) == 1 and len(tb[0].args) >= 5 and norm(tb[0].args[4]) == 'line_offsets' and \
-        any(norm(v) == 'self.report.submission.line_offsets' for v in defs.get('line_offsets', []))
-    ctx.check(ok, 'R2', 'sandbox:passes-offsets', sb, tb[0] if tb else cap,
-              "the sandbox does not hand the submission's line offsets to the traceback",
-              "runtime errors inside a section are section-relative")
-    for n in ast.walk(cap):
-        if isinstance(n, ast.Assign) and norm(n.targets[0]) == 'line_offsets' and \
-                norm(n.value) == 'self.report.submission.line_offsets':
-            from ..loader import ancestors as _anc
-            guards = [norm(a.test) for a in _anc(n) if isinstance(a, ast.If)]
-            ctx.check(all('submission' in g and 'filename' not in g and 'instructor' not in g for g in guards), 'R2',
-                      'sandbox:offsets-unconditional', sb, n,
-                      "the submission's line offsets are handed to the traceback only under %s; executions compiled "
-                      "under another filename (call()/evaluate() snippets) still fail inside the student's file" % guards,
-                      "call('f') of a student function that raises while section 2 is active: the location is "
-                      "section-relative")
-    ctor = [c for c in calls(cap) if kw(c, 'location') is not None]
-    ok = len(ctor) == 1 and norm(kw(ctor[0], 'location')) == 'traceback.line_number'
-    ctx.check(ok, 'R2', 'sandbox:location', sb, ctor[0] if ctor else cap,
-              "the runtime feedback's location is not the traceback's (offset-corrected) line number",
-              "runtime error located on the wrong line")
+    for fname_kind, filename in (('main-file', 'answer.py'), ('instructor-file', 'on_run.py'),
+                                 ('snippet', '_instructor.call_1.py')):
+        rec = symexec.Recorder()
+        offsets = symexec.marker('line_offsets')
+        line_no = symexec.marker('traceback.line_number')
+        submission = Obj('submission', instructor_file='on_run.py', line_offsets=offsets, main_file='answer.py',
+                         files={'answer.py': 'x = 1\n'})
+        symexec.method(submission, 'get_files_lines', lambda: {'answer.py': ['x = 1', '']})
+        symexec.method(submission, 'get_lines', lambda: ['x = 1', ''])
+        report = Obj('report', submission=submission)
+        me = symexec.self_obj(sb, 'Sandbox', report=report, full_traceback=False, exception=None, feedback=None)
+        symexec.method(me, 'get_context', rec.stub('get_context', ret=Obj('context')))
+        exc = Obj('exception', feedback=None)
+        tb_obj = Obj('traceback', line_number=line_no)
+        ff = rec.stub('runtime_error', ret=Obj('feedback'))
+        fd = symexec.new_fd(sym, sb, calls={
+            'improve_builtin_exceptions': lambda e: e,
+            'ExpandedTraceback': rec.stub('ExpandedTraceback', ret=tb_obj),
+            'type': lambda o: 'type-of-exception',
+            'runtime_error': ff,
+        }, extra={'EXCEPTION_FF_MAP': {}, 'runtime_error': ff})
+        _, raised = symexec.run(fd, cap, [exc, ('T', exc, 'tb'), 'x = 1\n', filename], bound_self=me,
+                                what='Sandbox._capture_exception')
+        ctx.check(raised is None, rule, 'sandbox:capture-completes[%s]' % fname_kind, sb, cap,
+                  "_capture_exception raises %s for a %s" % (getattr(raised, 'kind', ''), fname_kind),
+                  "a run-time error in a %s" % fname_kind)
+        if raised is not None:
+            continue
+        tbs = rec.named('ExpandedTraceback')
+        passed = len(tbs) == 1 and (any(a is offsets for a in tbs[0][1]) or
+                                    any(v is offsets for v in tbs[0][2].values()))
+        ctx.check(passed, rule, 'sandbox:passes-offsets' if fname_kind == 'main-file' else
+                  'sandbox:offsets-unconditional', sb, cap,
+                  "for an execution compiled as a %s the submission's line offsets do not reach the traceback "
+                  "(%d traceback(s) built)" % (fname_kind, len(tbs)),
+                  "runtime errors inside a section are section-relative" if fname_kind == 'main-file' else
+                  "call('f') of a student function that raises while section 2 is active: the location is "
+                  "section-relative")
+        ffs = rec.named('runtime_error')
+        ok = len(ffs) == 1 and ffs[0][2].get('location') is line_no and ffs[0][2].get('traceback') is tb_obj
+        ctx.check(ok, rule, 'sandbox:location[%s]' % fname_kind, sb, cap,
+                  "the runtime feedback is not built exactly once with location=traceback.line_number "
+                  "(%d construction(s))" % len(ffs), "runtime error located on the wrong line")
 
 
 def line_number_provenance(ctx, ux, init, ln, rule):
